@@ -244,10 +244,11 @@ def prim_checks():
         for k in sorted(vars(x)):
             out.append((k, getattr(x, k)))
         return out
-    for npc in (0, 1, 3):
+    # the application context name is a parameter like any other: the DICOM default and a private one (PS3.7 Annex A)
+    for npc, app in ((0, "1.2.840.10008.3.1.1.1"), (1, "1.2.826.0.1.3680043.9.3811.7.1"), (3, "1.2.3.4")):
         a = pp.A_ASSOCIATE()
         a.calling_ae_title, a.called_ae_title = "CALLING", "CALLED AE"
-        a.application_context_name = "1.2.840.10008.3.1.1.1"
+        a.application_context_name = app
         cxs = []
         for i in range(npc):
             c = PresentationContext()
@@ -268,7 +269,7 @@ def prim_checks():
             return dict(input=f"A_ASSOCIATE request with {npc} contexts", observed=repr(got)[:600], expected=repr(want)[:600])
         b = pp.A_ASSOCIATE()
         b.calling_ae_title, b.called_ae_title = "CALLING", "CALLED AE"
-        b.application_context_name = "1.2.840.10008.3.1.1.1"
+        b.application_context_name = app
         res = []
         for i in range(npc):
             c = PresentationContext()
